@@ -33,6 +33,8 @@ class DagRepo(G.Repository):
                      z3.Implies(self.p2[i] >= 0, z3.And(self.p1[i] >= 0, self.p2[i] != self.p1[i]))]
             if i > 0:
                 cons.append(self.p1[i] >= 0)          # a single root (atom 0)
+            # the robot only ever creates merge commits
+            cons.append(z3.Implies(self.robot[i], self.p2[i] >= 0))
             r = z3.BitVecVal(1 << i, N)
             for j in range(i):
                 r = r | z3.If(z3.Or(self.p1[i] == j, self.p2[i] == j), self.reach[j],
@@ -146,7 +148,10 @@ class DagRepo(G.Repository):
         if sub == 'show':
             j = ctx.concretize_int(self.res(rest[-1]), 0, self.N - 1)
             name = self.robot_name if ctx.decide(self.robot[j]) else 'alice'
-            return (name + '\n').encode()
+            # `git show` also prints the patch of a non-merge commit
+            if ctx.decide(self.p2[j] >= 0):
+                return (name + '\n\n').encode()
+            return (name + '\n\ndiff --git a/a%02d b/a%02d\nnew file mode 100644\n' % (j, j)).encode()
         if sub == 'cat-file':
             j = ctx.concretize_int(self.res(rest[-1]), 0, self.N - 1)
             out = ['tree 0000']
